@@ -30,8 +30,9 @@ def _q(fam, api, table, n, wrap, flush, eos, avail, cls, tier, exact=False, hist
     params = dict(harness=H, units=D.UNITS, vunits=D.VUNITS, hdefines=hdef, unwind=3,
                   unwindset=D.unwindset(n, exact=exact, dynamic=dynamic, avail=avail, nblk=(3 if (flush and not eos and api == 0) else 2)), witness=bool(witness and feasible),
                   flags=D.fs_flags(avail))
-    if n >= 4:
-        params["remove"] = ["compute_hash"]
+    # n = 4: compute_hash stays the real function (CBMC 6.11 reports "no body for callee" as a failed property, so
+    # goto-instrument --remove-function-body cannot be used); the first position can never match (hash heads are
+    # initialised to the current position => distance 0), so the match path is pruned concretely
     if timeout:
         params["timeout"] = timeout
     w = weight if weight is not None else (10.0 if (table == 1 or api == 1) else 1.0) * (4.0 if exact else 1.0)
@@ -137,7 +138,7 @@ def plan(tier, ctx):
                 stubs=["wmemset: 3-line loop (CBMC has no model)",
                        "write_bits interposed in the igzip_base.c translation unit: assume(count == class) then the repo's write_bits (deflate_shim.h); "
                        "a case split over code lengths, complete by the OTHER queries",
-                       "compute_hash body removed (nondeterministic hash) for n >= 4",
+                       
                        "x86 intrinsic headers skipped when compiling igzip_base.c for CBMC (no intrinsic is used)"],
                 assumptions=["guided oracle: block types / literal-only tokens implied by the table choice are asserted (STRUCT messages); "
                              "cross-checked against the whole rfc1951.h decoder on the /exact queries",
